@@ -217,6 +217,61 @@ def emit_re(r):
     die("emit_re %r" % (r,))
 
 
+FUEL_K = 24
+
+
+def min_len(r, mt):
+    k = r[0]
+    if k == 'eps' or k == 'star':
+        return 0
+    if k == 'tok':
+        return 1
+    if k == 'nt':
+        return mt.get(r[1], 0)
+    if k == 'seq':
+        return min_len(r[1], mt) + min_len(r[2], mt)
+    if k == 'alt':
+        return min(min_len(r[1], mt), min_len(r[2], mt))
+    die("min_len %r" % (r,))
+
+
+def rank(r, mt, rt):
+    k = r[0]
+    if k in ('eps', 'tok'):
+        return 0
+    if k == 'nt':
+        return rt.get(r[1], 0)
+    if k == 'seq':
+        return max(max(0, rank(r[1], mt, rt) - FUEL_K * min_len(r[2], mt)), max(0, rank(r[2], mt, rt) - FUEL_K * min_len(r[1], mt)))
+    if k == 'alt':
+        return max(rank(r[1], mt, rt), rank(r[2], mt, rt))
+    if k == 'star':
+        return rank(r[1], mt, rt)
+    die("rank %r" % (r,))
+
+
+def fuel_tables(prules):
+    """Hints for the fuel bound of the Lean recogniser (checked in Lean, not trusted): a lower bound on the number
+    of tokens each non-terminal derives (greatest fixpoint from below) and a rank such that
+    rank(n) >= 1 + rank(rhs(n)), where a sibling that must consume m tokens pays for FUEL_K*m of rank."""
+    mt = {n: 0 for n, _ in prules}
+    for _ in range(200):
+        new = {n: min_len(r, mt) for n, r in prules}
+        new = {n: min(v, 50) for n, v in new.items()}
+        if new == mt:
+            break
+        mt = new
+    rt = {n: 1 for n, _ in prules}
+    for _ in range(500):
+        new = {n: 1 + rank(r, mt, rt) for n, r in prules}
+        if new == rt:
+            break
+        if max(new.values()) > 5000:
+            die("rank table does not converge: the grammar has a cycle that consumes no token (left recursion?)")
+        rt = new
+    return mt, rt
+
+
 def main():
     src, out = sys.argv[1], sys.argv[2]
     text = open(src, encoding='utf-8').read()
@@ -266,6 +321,10 @@ def main():
     L.append(",\n".join("  (%s, %s)" % (lean_str(n), emit_rhs(r)) for n, r in prules))
     L.append("]\n")
     L.append("def startRule : String := %s\n" % lean_str(prules[0][0]))
+    mt, rt = fuel_tables(prules)
+    L.append("/-- hints for the fuel bound (checked by `decide` in Cpf.Props.C11, not trusted) -/")
+    L.append("def minLenTable : List (String × Nat) := [%s]" % ", ".join("(%s, %d)" % (lean_str(n), mt[n]) for n, _ in prules))
+    L.append("def rankTable : List (String × Nat) := [%s]\n" % ", ".join("(%s, %d)" % (lean_str(n), rt[n]) for n, _ in prules))
     L.append("/-- Lexer rules in ANTLR priority order: implicit literals of the parser rules in order of first\n    appearance, then the named lexer rules in file order. -/")
     L.append("def lexRules : List LexRule := [")
     items = []
